@@ -947,6 +947,8 @@ func c14run(c *Ctx) {
 			c14avgCase(c, ms, true, false)
 		}
 	}
+	// ---- F9: trees with a history (indexes built, then edited) ----
+	c14histFamily(c)
 	// ---- F7: command line (gotree matrix / gotree brlen cut) on the default decoration ----
 	c14cliFamily(c)
 	// ---- F8: large structured instances (plain executions, not exhaustive) ----
@@ -1089,6 +1091,25 @@ func c14replay(c *Ctx, raw json.RawMessage) {
 		fmt.Println("cannot read the case:", err)
 		return
 	}
+	if cs.Op == "matrix-after-edit" {
+		var hc c14histCase
+		json.Unmarshal(raw, &hc)
+		m, err := rm.ParseNewick(hc.Tree)
+		if err != nil {
+			fmt.Println("cannot re-read the tree:", err)
+			return
+		}
+		for _, ed := range c14edits(m) {
+			if ed.name == hc.Edit {
+				k, w, _ := c14histRun(m, hc.Index, ed)
+				fmt.Println(k, w)
+				if k != "" {
+					c.Violate(k, w, hc)
+				}
+			}
+		}
+		return
+	}
 	var ms []*rm.Tree
 	for _, j := range cs.Trees {
 		ms = append(ms, &rm.Tree{Root: c14dec(j)})
@@ -1138,6 +1159,7 @@ func init() {
 			"the reference model's tip sets below branches (refmodel.Below) are correct",
 		},
 		Require: []string{
+			"history_cases",
 			"clause_path_sum_brlen", "clause_path_sum_none", "clause_path_sum_boot", "clause_symmetry_diagonal",
 			"clause_row_order_tips_not_in_name_order", "clause_avg_mean_of_several_trees", "avg_collections_with_differing_tip_order",
 			"clause_cut_threshold_equals_a_length", "clause_cut_other_thresholds", "cut_partitions_with_a_proper_group",
